@@ -7,10 +7,11 @@
    dijkstra, the repaired prim_mst and count_triangles as written are proved to return the
    specification's answer on every graph (C26_bfs_optimal, C26_dijkstra_optimal,
    C26_prim_minimal, C26_count_triangles_model); Prim's original incoming-edge lookup is
-   refuted on a witness.  Not modelled as written: Edmonds-Karp, union-find, Tarjan, the LCC
-   loops (hash-map iteration order / recursion) — see checks/C26.json "partial". *)
+   refuted on a witness; the model of edmonds_karp returns the minimum cut for every
+   iteration order of its hash maps (C26_ek_equals_mincut).  Not modelled as written:
+   union-find, Tarjan, the LCC loops (hash-map iteration order / recursion) — see checks/C26.json "partial". *)
 From Coq Require Import List NArith Bool Arith.
-From Verif Require Import Algos AlgosProofs AlgosOptimal AlgosDijkstra AlgosTriangles AlgosPrim.
+From Verif Require Import Algos AlgosProofs AlgosOptimal AlgosDijkstra AlgosTriangles AlgosPrim Flow FlowProofs.
 Import ListNotations.
 
 (* ---- shortest paths / reachability ------------------------------------------------ *)
@@ -167,6 +168,44 @@ Theorem C26_prim_minimal : forall g, wf g -> 0 < gn g ->
   exists c T, prim_model g = MRes c T /\ mst_spec g = Some c.
 Proof. exact prim_minimal. Qed.
 
+(* ---- max flow as written (model/Flow.v) ---------------------------------------------- *)
+
+(* SOUNDNESS of any valid flow in residual form (pairwise r(u,v)+r(v,u) constant, conservation
+   at every inner node, net outflow of s = total): its value is at most the capacity of every
+   s-t cut *)
+Theorem C26_flow_le_every_cut : forall g s t, wf g -> s < gn g -> t < gn g -> s <> t ->
+  forall (r : rmap) (total : N) (S : nat -> bool),
+  finv g s t r total -> S s = true -> S t = false -> (total <= cut_cap g S)%N.
+Proof. exact flow_le_cut. Qed.
+
+(* ... and equals the capacity of a cut that no residual capacity leaves *)
+Theorem C26_flow_saturated_cut : forall g s t, wf g -> s < gn g -> t < gn g -> s <> t ->
+  forall (r : rmap) (total : N) (S : nat -> bool),
+  finv g s t r total -> S s = true -> S t = false ->
+  (forall u v, u < gn g -> v < gn g -> S u = true -> S v = false -> r u v = 0%N) ->
+  total = cut_cap g S.
+Proof. exact flow_eq_cut. Qed.
+
+(* the model of flow.rs edmonds_karp (residual map seeded from the capacities, BFS augmenting
+   path over the positive residual entries, bottleneck, update) returns the minimum cut —
+   "max-flow equals the minimum cut" — for EVERY iteration order [ord] of the residual hash
+   maps that visits every node; it returns None exactly for source = sink and never exhausts
+   its fuel (integer capacities: every augmentation adds at least 1) *)
+Theorem C26_ek_equals_mincut : forall g s t ord, wf g -> s < gn g -> t < gn g ->
+  (forall u v, In v (ord u) -> v < gn g) -> (forall u v, u < gn g -> v < gn g -> In v (ord u)) ->
+  ek_model ord g s t = match mincut g s t with Some c => FFlow c | None => FNone end.
+Proof. exact ek_equals_mincut. Qed.
+
+(* hence the result does not depend on the iteration order *)
+Theorem C26_ek_order_independent : forall g s t o1 o2, wf g -> s < gn g -> t < gn g ->
+  (forall u v, In v (o1 u) -> v < gn g) -> (forall u v, u < gn g -> v < gn g -> In v (o1 u)) ->
+  (forall u v, In v (o2 u) -> v < gn g) -> (forall u v, u < gn g -> v < gn g -> In v (o2 u)) ->
+  ek_model o1 g s t = ek_model o2 g s t.
+Proof.
+  intros g s t o1 o2 Hwf Hs Ht A1 B1 A2 B2.
+  rewrite (ek_equals_mincut g s t o1 Hwf Hs Ht A1 B1), (ek_equals_mincut g s t o2 Hwf Hs Ht A2 B2). reflexivity.
+Qed.
+
 (* ---- non-vacuity ------------------------------------------------------------------- *)
 
 Definition ex_graph : graph :=
@@ -185,7 +224,8 @@ Example C26_nonvacuous :
   path_ok ex_graph 0 2 (sp_cost ex_graph 0 2) (Some ([0; 1; 2], 3%N)) = true /\
   bfs_model ex_graph 0 2 = RPath [0; 2] 1%N /\
   dijkstra_model ex_graph 0 2 = RPath [0; 1; 2] 3%N /\
-  mres_total (prim_model ex_graph) = Some 4%N.
+  mres_total (prim_model ex_graph) = Some 4%N /\
+  ek_model (ord_asc 4) ex_graph 0 2 = FFlow 6%N /\ ek_model (fun _ => [3; 2; 1; 0]) ex_graph 0 2 = FFlow 6%N.
 Proof.
   split; [apply wfb_wf; vm_compute; reflexivity|]. vm_compute. repeat split.
 Qed.
@@ -206,3 +246,6 @@ Print Assumptions C26_bfs_optimal.
 Print Assumptions C26_dijkstra_optimal.
 Print Assumptions C26_count_triangles_model.
 Print Assumptions C26_prim_minimal.
+Print Assumptions C26_flow_le_every_cut.
+Print Assumptions C26_ek_equals_mincut.
+Print Assumptions C26_ek_order_independent.
